@@ -247,8 +247,65 @@ def rule_c(ctx):
     return loops.rule(ctx)
 
 
+# ---------------------------------------------------------------------------------------------
+# Every failure funnels through crates/compiler/src/error.rs (conversion into SassError, kind(), Display).  A panic there turns an
+# error into a crash, so the panic-capable operations of that file are an exact, reviewed inventory.
+ERROR_PATH_REVIEWED = {
+    ("<grass_compiler::error::SassError as std::fmt::Display>::fmt", "panic"): (1, "unreachable!() for the Raw kind: C19-a shows no Raw error reaches Display"),
+    ("grass_compiler::error::SassError::kind", "panic"): (1, "unreachable!() for the Raw kind (C19-a)"),
+    ("grass_compiler::error::SassError::raw", "panic"): (1, "raw() on a non-Raw error: C01-a shows only Raw errors reach it"),
+    ("grass_compiler::error::<impl std::convert::From<std::string::FromUtf8Error> for std::boxed::Box<grass_compiler::error::SassError>>::from", "bounds-check"):
+        (1, "as_bytes()[0] of the rejected input: from_utf8 fails only on a non-empty buffer"),
+}
+
+
+def rule_e(ctx):
+    r = RuleResult("C01-e", "the error path itself cannot panic: the panic-capable operations (panics, bounds checks, slice indexing, unwrap/expect, division) in "
+                   "error.rs are exactly the four reviewed ones")
+    prog = ctx.prog()
+    found = {}
+    nb = 0
+    for b in prog.bodies.values():
+        if b.crate != "grass_compiler" or not b.file.endswith("compiler/src/error.rs"):
+            continue
+        nb += 1
+        live = b.reachable()
+        for bb in range(len(b.blocks)):
+            if bb not in live:
+                continue
+            t = b.term(bb)
+            kind = None
+            if t["k"] == "assert":
+                msg = str(t.get("msg") or t.get("kind") or "")
+                kind = "bounds-check" if "bound" in msg.lower() else "assert:" + msg[:24]
+            elif t["k"] == "call":
+                c = b.call_at(bb)
+                t2 = an.tail2(c.callee) or ""
+                cal = c.callee or ""
+                if "panicking::" in cal or "unreachable" in cal:
+                    kind = "panic"
+                elif t2 in ("Index::index", "IndexMut::index_mut"):
+                    kind = "slice-index"
+                elif t2 in ("Option::unwrap", "Option::expect", "Result::unwrap", "Result::expect", "Result::unwrap_err"):
+                    kind = t2
+            if kind:
+                found.setdefault((b.path, kind), []).append("%s:%d" % (b.file, t["span"]["l"]))
+    for key, locs in sorted(found.items()):
+        k = "%s|%s" % key
+        rev = ERROR_PATH_REVIEWED.get(key)
+        if rev and len(locs) <= rev[0]:
+            r.ok(k, reviewed=rev[1])
+        else:
+            r.violate(k, "%s contains %d `%s` operation(s) (%s) that are not in the reviewed inventory of the error path: an error being built or rendered can now "
+                      "panic instead of being reported" % (key[0], len(locs), key[1], ", ".join(locs)), locs[0])
+    for key in sorted(set(ERROR_PATH_REVIEWED) - set(found)):
+        r.note("reviewed entry no longer present: %s %s" % key)
+    r.floor("bodies of error.rs examined", nb, 12)
+    return r
+
+
 import os as _os
 
 RULES = [rule_a, rule_b, rule_d]
 if _os.path.exists(_os.path.join(_os.path.dirname(__file__), "loops.py")):
-    RULES = [rule_a, rule_b, rule_c, rule_d]
+    RULES = [rule_a, rule_b, rule_c, rule_d, rule_e]
